@@ -238,6 +238,11 @@ class ProgGen:
         first_clause_condvars, prev_first, seen_clause = [], False, False
         if nclauses is None:
             nclauses = rng.choice([1, 1, 2, 2, 2, 3, 3, 4][:cfg.max_clauses * 2])
+        if nclauses > 0 and rng.random() < cfg.p_leading_binder:
+            from .gen import leading_binder
+            lead, lb = leading_binder(rng, cfg, fresh)
+            items += lead
+            bound += lb
         for ci in range(nclauses):
             relname = rng.choice(pos)
             rel = self.rels[relname]
